@@ -570,6 +570,9 @@ func runC15(rc *RC) {
 			}
 			injs = append(injs, inj{"linebreak-base64", sid, strconv.Itoa(nextSeq % 65536), wrapped.String(), "result-or-bad-request"})
 		}
+		// a second open request that names the session id of the stream that is live: there is one stream per id, so
+		// the request cannot be granted - and the stream that is live must not notice
+		injs = append(injs, inj{"open-live-sid", sid, "0", "", "any-error"})
 		if !ack && tailA == 0 && !reverse && len(payload)%3 == 0 {
 			// message carrier: a data packet in sequence that shares its message with other payloads (delivery hints, AMP
 			// rules: XEP-0047 shows such messages), in front of and behind <data/>. It is a packet like any other.
@@ -623,8 +626,12 @@ func runC15(rc *RC) {
 		it := rc.Spawn("injector", func() {
 			ictx, c2 := context.WithTimeout(ctx, 20*time.Second)
 			defer c2()
-			r, err := p.A.SendIQ(ictx, stanza.IQ{Type: stanza.SetIQ, To: bJID, ID: "inj1"}.Wrap(xmlstream.Wrap(xmlstream.Token(xml.CharData(in.data)),
-				xml.StartElement{Name: xml.Name{Space: ibb.NS, Local: "data"}, Attr: []xml.Attr{{Name: xml.Name{Local: "sid"}, Value: in.sid}, {Name: xml.Name{Local: "seq"}, Value: in.seq}}})))
+			injPayload := xmlstream.Wrap(xmlstream.Token(xml.CharData(in.data)),
+				xml.StartElement{Name: xml.Name{Space: ibb.NS, Local: "data"}, Attr: []xml.Attr{{Name: xml.Name{Local: "sid"}, Value: in.sid}, {Name: xml.Name{Local: "seq"}, Value: in.seq}}})
+			if in.name == "open-live-sid" {
+				injPayload = xmlstream.Wrap(nil, xml.StartElement{Name: xml.Name{Space: ibb.NS, Local: "open"}, Attr: []xml.Attr{{Name: xml.Name{Local: "sid"}, Value: in.sid}, {Name: xml.Name{Local: "block-size"}, Value: "64"}, {Name: xml.Name{Local: "stanza"}, Value: "iq"}}})
+			}
+			r, err := p.A.SendIQ(ictx, stanza.IQ{Type: stanza.SetIQ, To: bJID, ID: "inj1"}.Wrap(injPayload))
 			if err != nil {
 				ierr = err
 				return
@@ -664,6 +671,9 @@ func runC15(rc *RC) {
 			} else {
 				in.want = "bad-request"
 			}
+		}
+		if in.want == "any-error" && it.Done() && ierr == nil && cond != "" && cond != "result" {
+			in.want = cond
 		}
 		if !it.Done() || ierr != nil || cond != in.want {
 			rc.Failf("C15.c4", "bad-packet-not-refused:"+in.name, "injected %s packet: want stanza error %s, got %q (err %v, returned %v)", in.name, in.want, cond, ierr, it.Done())
